@@ -564,3 +564,54 @@ Theorem C01_region_extraction_preserves_paths_b :
       WTrace h (resolve_flat h) strict n e ds tr st -> WTrace h' (resolve_flat h') strict n e' ds tr st.
 Proof. exact extract_keeps_walks_b. Qed.
 Print Assumptions C01_region_extraction_preserves_paths_b.
+
+(* ---------- loop rotation at ANY level of a hierarchy (Model/LoopHier.v, Flatten.v, LoopRename.v, LoopHierPath.v) ----------
+   loop_restructure_helper works on the dictionary of one level, blocks and region blocks alike; the model
+   (LoopHier.loop_helper_h: the flat model applied to that dictionary and written back, compared with the
+   code on every call the pipeline makes) does the same.  The theorem: the rotation (one header) keeps every
+   flat walk of the whole hierarchy, exits that are regions included.  Proof route: the flat walk of any
+   hierarchy is the walk of its resolved leaf graph (C01_hierarchy_walk_is_flat_graph_walk); rotating the
+   level's dictionary and resolving region names afterwards is rotating the resolved leaf graph
+   (LoopRename.loop_rotate_rho); rotating a flat graph keeps every walk (C01_loop_rotation_preserves_paths).
+   All hypotheses are decidable; walk_pre_rot computes them and the extracted checker evaluates it on every
+   rotation the pipeline performs (evidence: plain_rotations_meeting_path_theorem_hypotheses). *)
+From V Require Import Model.LoopHier Model.Flatten Model.LoopHierPath Model.LoopHierApplic.
+
+Theorem C01_hierarchy_walk_is_flat_graph_walk :
+  forall h top strict,
+    NoDup (names h) -> ~ In top (names h) ->
+    (forall n, In n h -> n_kind n <> KPlain 100) ->
+    (forall x n t, find h x = Some n -> is_region n = false -> In t (n_jt n) -> enter_flat h (S (length h)) t <> None) ->
+    (forall x n c v tbl z t, find h x = Some n -> n_kind n = KBranch c v tbl -> zassoc z tbl = Some t -> In t (n_jt n)) ->
+    forall n e ds tr st,
+      (exists b p, find h n = Some b /\ n_kind b = KOrig p) ->
+      (WTrace h (resolve_flat h) strict n e ds tr st <->
+       WTrace (ehier top (RL h)) (resolve_flat (ehier top (RL h))) strict n e ds tr st).
+Proof. exact flatten_walk. Qed.
+Print Assumptions C01_hierarchy_walk_is_flat_graph_walk.
+
+Theorem C01_loop_rotation_any_level_preserves_paths_b :
+  forall h lvl top hd exits todo isback latch sexit ev bv fresh strict,
+    walk_pre_rot h lvl top hd exits todo isback latch sexit ev bv fresh = true ->
+    exists nl g1 g1',
+      find h lvl = Some nl /\ collect h (children_h nl) = Some g1 /\
+      loop_rotate g1 hd [hd] exits todo false [] isback latch sexit ev bv fresh = Ok g1' /\
+      forall n e e' ds tr st,
+        (exists b p, find h n = Some b /\ n_kind b = KOrig p) ->
+        E (Fl ev bv) e e' ->
+        WTrace h (resolve_flat h) strict n e ds tr st ->
+        WTrace (write_back h lvl g1') (resolve_flat (write_back h lvl g1')) strict n e' ds tr st.
+Proof. exact loop_rotate_h_keeps_walks_b. Qed.
+Print Assumptions C01_loop_rotation_any_level_preserves_paths_b.
+
+(* non-vacuity: the self loop 6 (no declared back edge yet) with two ways out, one of them into the loop
+   region 20 whose header is 21; rotated at the outermost level *)
+Example C01_loop_rotation_any_level_example :
+  walk_pre_rot [ mkNode 1 0 [] [] (KRegion 1 0 0 [5; 6; 7; 20] 0 true);
+                 mkNode 5 1 [6] [] (KOrig 1);
+                 mkNode 6 1 [6; 7; 20] [] (KOrig 1);
+                 mkNode 7 1 [] [] (KOrig 1);
+                 mkNode 20 1 [7] [] (KRegion 2 21 21 [21] 1 true);
+                 mkNode 21 20 [21; 7] [21] (KOrig 1) ]
+               1 (-1) 6 [7; 20] [6] (fun _ _ => true) 40 41 8 9 [30; 31; 32] = true.
+Proof. vm_compute. reflexivity. Qed.
